@@ -943,6 +943,109 @@ async def blocked_write_disconnect_case(ctx, ending: str, seed: int) -> None:
         ctx.obs("blocked-write-disconnect:still-pending-after-60s")
 
 
+async def retargeted_transport_case(ctx, kind: str) -> None:
+    """One transport object, two sessions, and between them the application points it at ANOTHER peer: `transport.host` is
+    re-assigned (TCP, two servers on 127.0.0.1 / 127.0.0.2 with the same port), or the symbolic link it was given is
+    re-pointed at another tty (serial, /dev/serial/by-id/... after a USB re-enumeration).  The second session talks to the
+    peer that is configured now."""
+    case = {"engine": "retargeted", "kind": kind}
+    received = {"a": bytearray(), "b": bytearray()}
+    if kind == "tcp-host":
+        from aiomysensors.transport.tcp import TCPTransport
+
+        def handler_for(name: str):
+            async def handler(reader, writer) -> None:
+                try:
+                    writer.write(f"0;255;3;0;14;hello from {name}\n".encode())
+                    await writer.drain()
+                    while True:
+                        data = await reader.read(65536)
+                        if not data:
+                            break
+                        received[name].extend(data)
+                except OSError:
+                    pass
+                finally:
+                    writer.close()
+            return handler
+
+        server_a = await asyncio.start_server(handler_for("a"), "127.0.0.1", 0)
+        port = server_a.sockets[0].getsockname()[1]
+        try:
+            server_b = await asyncio.start_server(handler_for("b"), "127.0.0.2", port)
+        except OSError as err:
+            server_a.close()
+            await server_a.wait_closed()
+            ctx.skip("second-loopback-address", str(err))
+            return
+        transport = TCPTransport("127.0.0.1", port)
+        lines = []
+        try:
+            await transport.connect()
+            lines.append(await asyncio.wait_for(transport.read(), 10))
+            await transport.write("1;0;1;0;2;to-a\n")
+            await transport.disconnect()
+            transport.host = "127.0.0.2"
+            await transport.connect()
+            lines.append(await asyncio.wait_for(transport.read(), 10))
+            await transport.write("1;0;1;0;2;to-b\n")
+            await transport.disconnect()
+            await asyncio.sleep(0.05)
+        except Exception as exc:  # noqa: BLE001
+            lines.append(f"<{type(exc).__name__}: {exc!s:.60}>")
+        finally:
+            for server in (server_a, server_b):
+                server.close()
+                await server.wait_closed()
+    else:
+        from aiomysensors.transport.serial import SerialTransport
+
+        base = str(__import__("vf.ctx", fromlist=["scratch_dir"]).scratch_dir("c17-link"))
+        link = os.path.join(base, "usb-gateway-if00")
+        pairs = [os.openpty(), os.openpty()]
+        for master, _slave in pairs:
+            tty.setraw(master)
+            os.set_blocking(master, False)
+        loop = asyncio.get_running_loop()
+        for name, (master, _slave) in zip("ab", pairs):
+            loop.add_reader(master, lambda m=master, n=name: received[n].extend(os.read(m, 65536)))
+        lines = []
+        try:
+            os.symlink(os.ttyname(pairs[0][1]), link)
+            transport = SerialTransport(link)
+            await transport.connect()
+            os.write(pairs[0][0], b"0;255;3;0;14;hello from a\n")
+            lines.append(await asyncio.wait_for(transport.read(), 10))
+            await transport.write("1;0;1;0;2;to-a\n")
+            await transport.disconnect()
+            os.unlink(link)
+            os.symlink(os.ttyname(pairs[1][1]), link)  # the device re-enumerated: the stable name now leads elsewhere
+            await transport.connect()
+            os.write(pairs[1][0], b"0;255;3;0;14;hello from b\n")
+            lines.append(await asyncio.wait_for(transport.read(), 10))
+            await transport.write("1;0;1;0;2;to-b\n")
+            await asyncio.sleep(0.05)
+            await transport.disconnect()
+            await asyncio.sleep(0.05)
+        except Exception as exc:  # noqa: BLE001
+            lines.append(f"<{type(exc).__name__}: {exc!s:.60}>")
+        finally:
+            for master, slave in pairs:
+                loop.remove_reader(master)
+                os.close(master)
+                os.close(slave)
+            __import__("shutil").rmtree(base, ignore_errors=True)
+    ctx.case(("retargeted", kind), sample=case)
+    ctx.clause("transport-pointed-at-another-peer")
+    want_lines = ["0;255;3;0;14;hello from a\n", "0;255;3;0;14;hello from b\n"]
+    if lines != want_lines:
+        ctx.violation("read-not-a-line-of-the-stream", f"{kind}: after the transport was pointed at peer b the sessions read "
+                                                       f"{lines!r:.160}, expected {want_lines!r}", case)
+    elif bytes(received["a"]) != b"1;0;1;0;2;to-a\n" or bytes(received["b"]) != b"1;0;1;0;2;to-b\n":
+        ctx.violation("written-bytes-differ", f"{kind}: peer a received {bytes(received['a'])!r:.60}, peer b "
+                                              f"{bytes(received['b'])!r:.60}", case)
+
+
 def two_loop_backpressure(ctx, n_writers: int, line_size: int, seed: int, loops: int = 2) -> None:
     """The same transport object used in successive sessions that each run under their OWN event loop (an application
     that calls asyncio.run(main(transport)) again after a lost connection); every session has back-pressured concurrent
@@ -1196,6 +1299,8 @@ def run_case(ctx, case: dict) -> None:
                             case.get("disconnect_between", True)))
     elif case.get("engine") == "serial-pty" and not str(case["stream"]).startswith("<"):
         arun(serial_case(ctx, bytes.fromhex(case["stream"]), case["chunks"], case["writes"]))
+    elif case.get("engine") == "retargeted":
+        arun(retargeted_transport_case(ctx, case["kind"]))
     elif case.get("engine") == "blocked-write-disconnect":
         arun(blocked_write_disconnect_case(ctx, case["ending"], case["seed"]))
     elif case.get("engine") == "stalled-close":
@@ -1292,6 +1397,12 @@ def run(ctx) -> None:
                     stalled_close_case(ctx, stall_s, kib)
             if ctx.shard_index == (4 % ctx.shard_count):
                 arun(kernel_timeout_case(ctx, ctx.seed))
+            for i, kind in enumerate(("tcp-host", "serial-link")):
+                if ctx.mine(i + 2):
+                    try:
+                        arun(retargeted_transport_case(ctx, kind))
+                    except OSError as err:
+                        ctx.skip("retargeted-" + kind, str(err))
             for i, ending in enumerate(("peer-resets", "peer-reads", "peer-closes")):
                 if ctx.mine(i + 1):
                     arun(blocked_write_disconnect_case(ctx, ending, ctx.seed))
